@@ -175,7 +175,7 @@ def run(ctx):
     per_tree = 4 if ctx.quick else 16
     mc = tlc.run("RuleAst_MC", MC_CFG % per_tree, ctx.workdir, dump=True, coverage=True, timeout=3000)
     ctx.model(mc, "RuleAst_MC oracle self-consistency", vacuity=["PickTree", "PickLayout", "PickScene"])
-    neg = tlc.run("RuleAst_MC", NEG_CFG, ctx.workdir, tag="_neg", timeout=1200)
+    neg = tlc.run("RuleAst_MC", NEG_CFG, ctx.workdir, tag="_neg", timeout=1200, workers=1, seed=1)  # sampled model: fixed draw
     ctx.expect_violation(neg, "LeakyAgrees", "leaky minscore inside cds is not the documented meaning (P6 on the model)")
     trees, layouts = [], []
     for state in tlaval.read_dump(mc.dump_path, keep=lambda text: "stage = 1" in text or "stage = 3" in text):
